@@ -223,7 +223,18 @@ func (vm *VM) general(r int8) reflect.Value {
 	if r > 0 {
 		return vm.regs.general[vm.fp[3]+Addr(r)]
 	}
-	return vm.generalIndirect(-r)
+	return dynamicValue(vm.generalIndirect(-r))
+}
+
+// dynamicValue returns the dynamic value of v if v is an interface value,
+// otherwise it returns v. A register holds the dynamic value of an interface
+// value; a variable referred through an indirect register holds the interface
+// value itself.
+func dynamicValue(v reflect.Value) reflect.Value {
+	if v.Kind() == reflect.Interface {
+		return v.Elem()
+	}
+	return v
 }
 
 func (vm *VM) generalk(r int8, k bool) reflect.Value {
@@ -233,7 +244,7 @@ func (vm *VM) generalk(r int8, k bool) reflect.Value {
 	if r > 0 {
 		return vm.regs.general[vm.fp[3]+Addr(r)]
 	}
-	return vm.generalIndirect(-r)
+	return dynamicValue(vm.generalIndirect(-r))
 }
 
 func (vm *VM) generalIndirect(r int8) reflect.Value {
